@@ -29,6 +29,26 @@ type rewriter struct {
 	info     *types.Info
 	declined []string
 	nsel     int
+	// atomicStmts are the expression statements that consist of one operation of sync/atomic
+	atomicStmts map[*ast.ExprStmt]bool
+}
+
+// isAtomicOp reports whether the call is a function of sync/atomic or a method of one of its types.
+func (r *rewriter) isAtomicOp(call *ast.CallExpr) bool {
+	if r.info == nil {
+		return false
+	}
+	var id *ast.Ident
+	switch f := call.Fun.(type) {
+	case *ast.SelectorExpr:
+		id = f.Sel
+	case *ast.Ident:
+		id = f
+	default:
+		return false
+	}
+	fn, ok := r.info.Uses[id].(*types.Func)
+	return ok && fn.Pkg() != nil && fn.Pkg().Path() == "sync/atomic"
 }
 
 func (r *rewriter) decline(format string, a ...any) {
@@ -63,7 +83,7 @@ func (r *rewriter) chanType(ct *ast.ChanType) ast.Expr {
 // Rewrite transforms the generated file. pkgName is the package of the output; typeAliases are emitted
 // so that element types of the original package resolve (e.g. "type Item = p.Item").
 func Rewrite(src []byte, info *types.Info, fset *token.FileSet, file *ast.File, pkgName string, header string) (*Result, error) {
-	r := &rewriter{fset: fset, info: info}
+	r := &rewriter{fset: fset, info: info, atomicStmts: map[*ast.ExprStmt]bool{}}
 	res := &Result{}
 	// statements first (they need the original types), types afterwards; post-order, so that the
 	// children of a statement are already rewritten when the statement itself is rebuilt
@@ -182,6 +202,16 @@ func Rewrite(src []byte, info *types.Info, fset *token.FileSet, file *ast.File, 
 				}
 			}
 		case *ast.CallExpr:
+			// an operation of sync/atomic (function or method of an atomic type) is an access to memory the tasks
+			// share: a scheduling point follows it. With a result: sched.Step(S, op); as a statement: { op; S.Shared() }
+			if r.isAtomicOp(n) {
+				if es, ok := c.Parent().(*ast.ExprStmt); ok && es.X == ast.Expr(n) {
+					r.atomicStmts[es] = true
+				} else {
+					c.Replace(&ast.CallExpr{Fun: sel("sched", "Step"), Args: []ast.Expr{ast.NewIdent("S"), n}})
+				}
+				return true
+			}
 			if id, ok := n.Fun.(*ast.Ident); ok {
 				switch id.Name {
 				case "close":
@@ -211,6 +241,10 @@ func Rewrite(src []byte, info *types.Info, fset *token.FileSet, file *ast.File, 
 				}
 			}
 		case *ast.ExprStmt:
+			if r.atomicStmts[n] {
+				c.Replace(&ast.BlockStmt{List: []ast.Stmt{n, &ast.ExprStmt{X: method(ast.NewIdent("S"), "Shared")}}})
+				return true
+			}
 			if ue, ok := n.X.(*ast.UnaryExpr); ok && ue.Op == token.ARROW {
 				if cc, ok := c.Parent().(*ast.CommClause); ok && cc.Comm == ast.Stmt(n) {
 					return true
